@@ -1,7 +1,8 @@
 (* C13 — timeline.  Headline theorems only; lemmas in Proofs/TimelineProofs.v; model Model/Timeline.v.
    Times are 10 s slots since year 1; st_get calls tl_generate on the range rounded by s_normalize_unix. *)
 From Pyro Require Import Model.Base Model.Tree Model.Segment Model.Timeline Model.Storage Proofs.SegmentProofs Proofs.SegStruct
-  Proofs.TimelineProofs Proofs.StorageProofs Proofs.StorageCounters Proofs.TimelineCoarse Proofs.SegCountShare Proofs.TimelineEven.
+  Proofs.TimelineProofs Proofs.StorageProofs Proofs.StorageCounters Proofs.TimelineCoarse Proofs.SegCountShare Proofs.TimelineEven
+  Model.Float53 Proofs.SegCount Proofs.Float53Bound Proofs.TimelineBound.
 Local Open Scope Z_scope.
 
 Theorem C13_shape_start : forall a b, tl_st (tl_generate a b) = a.
@@ -241,3 +242,51 @@ Example C13_shape_nonvacuous :
   length (tl_samples (tl_generate 6373559600 (6373559600 + 10241))) = 1024%nat /\
   tl_lvl (tl_generate 0 (1024 * 100000000 + 1)) = 8%nat /\ tl_lvl (tl_generate 0 (1024 * 10000000000 + 1)) = 8%nat.
 Proof. vm_compute. repeat split. Qed.
+
+(* ------------------------------------------------------------------------------------------ *)
+(* Counts that are NOT a multiple of the span: the bound (exactness is C13_entries_even).       *)
+
+(* for ANY span n >= 1, any m slots of it in a bucket and any count c < 2^52, the counter increment
+   uint64(float64(c) * RN(m/n)) lies strictly between c*m/n - 2 and c*m/n + 1, i.e. within 1 of floor(c*m/n)
+   (two roundings to nearest, then truncation; attained from below: n=10, m=7, c=90 gives 62) *)
+Theorem C13_share_bound : forall (n m : Z) (c : N), 1 <= m <= n -> (c < 2 ^ 52)%N ->
+  let x := Z.of_N (samples_incr c m n) in
+  Z.of_N c * m - 2 * n < n * x < Z.of_N c * m + n /\
+  Z.of_N c * m / n - 1 <= x <= Z.of_N c * m / n + 1.
+Proof. exact share_bound. Qed.
+Print Assumptions C13_share_bound.
+
+(* the sample counter of every bucket of the tree is within (number of uploads meeting it) of the sum of the
+   floors of their exact shares — any spans, any counts below 2^52 *)
+Theorem C13_counter_bound : forall H lvl t, Forall bounded_write H ->
+  Z.abs (Z.of_N (ssum H lvl t) - sumZ (map (fshare lvl t) (filter (meets lvl t) H))) <= Z.of_N (nmeet H lvl t).
+Proof. exact ssum_bound. Qed.
+Print Assumptions C13_counter_bound.
+
+(* C13_entries_bound (one series, 10 s buckets, uploads of 1..9 slots with ARBITRARY counts below 2^52):
+   entry k is 0 iff no upload covers slot a+k; otherwise it is within k' of 1 + the sum over the k' covering
+   uploads of floor(c_w / n_w) (the exact per-slot share rounded down) *)
+Theorem C13_entries_bound : forall K ws a b, Forall (valid_write K) ws -> short_ws ws ->
+  Forall (fun w => (w_smp w < 2 ^ 52)%N) ws -> a < b -> tl_lvl (tl_generate a b) = O ->
+  forall k, (k < Z.to_nat (b - a))%nat ->
+  let t := a + Z.of_nat k in
+  let e := Z.of_N (nth k (tl_samples (tl_populate (fst (run_writes ws)) (tl_generate a b))) 0%N) in
+  let cover := filter (meets 0 t) ws in
+  (cover = [] -> e = 0) /\
+  (cover <> [] -> Z.abs (e - (1 + sumZ (map (fshare 0 t) cover))) <= Z.of_nat (length cover)).
+Proof. exact entries_bound_single_series. Qed.
+Print Assumptions C13_entries_bound.
+
+(* non-vacuity: three slots, 100 samples (not a multiple of 3): the three entries are 34, 34, 34 = 1 + 33 each *)
+Definition bound_ws : list write := [ {| w_a := 6321559688; w_b := 6321559691; w_smp := 100%N; w_beta := 1 |} ].
+Example C13_entries_bound_nonvacuous :
+  Forall (valid_write 63) bound_ws /\ short_ws bound_ws /\ Forall (fun w => (w_smp w < 2 ^ 52)%N) bound_ws /\
+  tl_lvl (tl_generate 6321559680 6321559700) = O /\
+  map (fun k => nth k (tl_samples (tl_populate (fst (run_writes bound_ws)) (tl_generate 6321559680 6321559700))) 0%N) [7; 8; 9; 10; 11]%nat
+    = [0; 34; 34; 34; 0]%N /\
+  fshare 0 6321559688 {| w_a := 6321559688; w_b := 6321559691; w_smp := 100%N; w_beta := 1 |} = 33.
+Proof.
+  split; [repeat constructor; cbn; unfold pow10; cbn; lia|].
+  split; [repeat constructor; cbn; lia|]. split; [repeat constructor; cbn; lia|].
+  split; [vm_compute; reflexivity|]. split; vm_compute; reflexivity.
+Qed.
